@@ -143,9 +143,17 @@ def rule_fit(repo: Repo) -> List[Ob]:
     if loop is not None and isinstance(loop.iter, ast.Call) and call_name(loop.iter) == "range":
         lo = loop.iter.args[0] if len(loop.iter.args) >= 2 else _p("0")
         bounds = [resolve_alias(lo, defs)]
+        unread = False
+        lv = loop.target.id if isinstance(loop.target, ast.Name) else None
         for st in loop.body:
-            if isinstance(st, ast.If) and any(isinstance(x, ast.Continue) for x in st.body) and isinstance(st.test, ast.Compare) and isinstance(st.test.ops[0], (ast.Lt, ast.LtE)):
-                bounds.append(resolve_alias(st.test.comparators[0], defs))
+            if isinstance(st, ast.If) and any(isinstance(x, ast.Continue) for x in st.body):
+                t = st.test
+                if isinstance(t, ast.Compare) and len(t.ops) == 1 and isinstance(t.ops[0], (ast.Lt, ast.LtE)) and isinstance(t.left, ast.Name) and t.left.id == lv:
+                    bounds.append(resolve_alias(t.comparators[0], defs))          # n < first: skipped
+                elif isinstance(t, ast.Compare) and len(t.ops) == 1 and isinstance(t.ops[0], (ast.Gt, ast.GtE)) and isinstance(t.comparators[0], ast.Name) and t.comparators[0].id == lv:
+                    bounds.append(resolve_alias(t.left, defs))                    # first > n: skipped
+                else:
+                    unread = True
         text = " ".join(src(b) for b in bounds)
         # does any lower bound depend on the multiplicity of the root 0?
         def mentions_zero(e) -> bool:
@@ -157,10 +165,11 @@ def rule_fit(repo: Repo) -> List[Ob]:
             return False
         if any(mentions_zero(b) for b in bounds):
             zero_aware = True
-        elif all(isinstance(b, ast.Constant) for b in bounds):
+        elif all(isinstance(b, ast.Constant) for b in bounds) and not unread:
             zero_aware = False
     # are zero roots excluded from the ansatz at all?
-    excl = any(isinstance(t, ast.Compare) and isinstance(t.ops[0], ast.NotEq) and src(t.comparators[0]) == "0" and "root" in src(t.left)
+    excl = any(isinstance(t, ast.Compare) and len(t.ops) == 1 and isinstance(t.ops[0], (ast.NotEq, ast.Eq)) and
+               ((src(t.comparators[0]) == "0" and "root" in src(t.left)) or (src(t.left) == "0" and "root" in src(t.comparators[0])))
                for mm in cls.all_methods for n in walk_no_nested(mm.node) if isinstance(n, ast.If) for t in [n.test])
     if zero_aware is None or not excl:
         obs.append(inconclusive(R, key + "::after-transient", CY, sub.lineno, m.qualname, "first fitted iteration not recognised"))
@@ -233,6 +242,11 @@ def rule_geometric_sum(repo: Repo) -> List[Ob]:
         checks["the inhomogeneous part is evaluated at k"] = bool(d.keys) and is_self_attr(key0, "n", selfn) and isinstance(d.values[0], ast.Name) and d.values[0].id == kk
     bad = [t for t, v in checks.items() if v is False]
     unk = [t for t, v in checks.items() if v is None]
+    # a local that is assigned more than once (or by a loop) stands for no single expression: nothing is concluded from it
+    opaque = sorted({x.id for e in (e_sum, e_hom, lo, hi) for x in ast.walk(e) if isinstance(x, ast.Name) and x.id not in defs.params and x.id != kk
+                     and x.id not in _ALIASES and (len(defs.defs.get(x.id, [])) > 1 or any(not isinstance(v, ast.expr) for v in defs.defs.get(x.id, [])))})
+    if bad and opaque:
+        return [inconclusive(R, key, AC, c.lineno, m.qualname, f"the exponents mention {opaque}, assigned more than once")]
     if bad:
         return [Ob(R, key, AC, c.lineno, m.qualname, False, f"not the geometric-sum identity x(n) = c**(n-s) x(s) + sum_(k=s)^(n-1) c**(n-k-1) f(k): fails `{bad[0]}`")]
     if unk:
